@@ -62,11 +62,15 @@ def make_roms(fname, *, imax, jmax, N, times, mask=None, h=None, dx=128.0, dy=No
         U = np.zeros((nt, N, jmax, imax - 1)) if U is None else U
         V = np.zeros((nt, N, jmax - 1, imax)) if V is None else V
         if pack:
-            pu, pv = pack if isinstance(pack, (tuple, list)) else (pack, pack)
-            mk("u", ("ocean_time", "s_rho", "eta_u", "xi_u"), np.round(U / pu).astype("i2"), "i2",
-               scale_factor=np.float32(pu), add_offset=np.float32(0))
-            mk("v", ("ocean_time", "s_rho", "eta_v", "xi_v"), np.round(V / pv).astype("i2"), "i2",
-               scale_factor=np.float32(pv), add_offset=np.float32(0))
+            # pack = scale | (scale_u, scale_v) | (scale_u, scale_v, mode): mode "both" writes scale_factor and add_offset = 0,
+            # "sf_only" writes no add_offset attribute at all (CF: it defaults to 0), "offset" packs around a non-zero offset
+            pu, pv = (pack[0], pack[1]) if isinstance(pack, (tuple, list)) else (pack, pack)
+            mode = pack[2] if isinstance(pack, (tuple, list)) and len(pack) > 2 else "both"
+            ou, ov = (0.375, -0.1875) if mode == "offset" else (0.0, 0.0)
+            au = dict(scale_factor=np.float32(pu)) if mode == "sf_only" else dict(scale_factor=np.float32(pu), add_offset=np.float32(ou))
+            av = dict(scale_factor=np.float32(pv)) if mode == "sf_only" else dict(scale_factor=np.float32(pv), add_offset=np.float32(ov))
+            mk("u", ("ocean_time", "s_rho", "eta_u", "xi_u"), np.round((U - ou) / pu).astype("i2"), "i2", **au)
+            mk("v", ("ocean_time", "s_rho", "eta_v", "xi_v"), np.round((V - ov) / pv).astype("i2"), "i2", **av)
         else:
             mk("u", ("ocean_time", "s_rho", "eta_u", "xi_u"), U, "f4")
             mk("v", ("ocean_time", "s_rho", "eta_v", "xi_v"), V, "f4")
